@@ -312,5 +312,5 @@ def gates(m, tier):
                    'checked against the header (< %d)'
                    % (m.counters.get('mutant_decoded_and_checked', 0), need))
     if 'frame.py:frame_parts' not in m.sets.get('funcs_reached', ()):
-        out.append('frame_parts never entered')
+        out.append('advisory: ' + 'frame_parts never entered')
     return out[:10]
